@@ -2,6 +2,7 @@
   Line-protocol driver: dispatch over op groups and per-line verdict.  IMPORT-FREE.
 -/
 import OHVerif.Model.DriverOptic
+import OHVerif.Model.SxTotal
 
 namespace OH
 namespace Drv
@@ -99,13 +100,20 @@ def inputsWf (op : String) (args : List Sx) : Bool :=
       | _, _, _ => true
     else true
 
+/-- one case line in, one verdict line out.  The line is read by the TOTAL tokenizer/parser of
+    `Model/SxTotal.lean`, proved (Props/WireText.lean: `parseLineT_line`) to invert the documented text
+    format, and diagnostics are printed by the total printer `toStrT` (`toStrT_eq`). -/
 def verdictLine (line : String) : String :=
-  match Sx.parseLine line with
+  match Sx.parseLineT line with
   | some [.n id, .s op, .l args, impl] =>
+    -- the harness must have printed the CANONICAL text of the four items: then, by
+    -- `WireText.parseLineT_line`/`toStrT_injective_on_bare`, the value judged below is the one and only
+    -- value whose documented text is this line (the Rust printer is checked, not trusted, on every line)
+    if Sx.lineT [.n id, .s op, .l args, impl] != line then s!"{id} BAD {op} non-canonical-line" else
     match dispatch op args impl with
     | some o =>
       if o.agree then s!"{id} ok {op} {o.rel}"
-      else s!"{id} DIFF {op} rel={o.rel} decisive={o.decisive} class={o.klass} inwf={if inputsWf op args then "yes" else "no"} {wfType o.model impl} model={o.model} impl={impl} note={o.note}"
+      else s!"{id} DIFF {op} rel={o.rel} decisive={o.decisive} class={o.klass} inwf={if inputsWf op args then "yes" else "no"} {wfType o.model impl} model={Sx.toStrT o.model} impl={Sx.toStrT impl} note={o.note}"
     | none => s!"{id} BAD {op} unknown-op-or-malformed-args"
   | _ => "0 BAD ? unparsable-line"
 
